@@ -19,10 +19,16 @@ pub fn generate_optimization_report(
 
     let mut total_optimizations_found = 0;
 
+    //Render the patterns in declaration order and the files in sorted order,
+    //the report must not depend on hash map iteration order or on file discovery order
+    let mut optimizations: Vec<_> = optimizations.into_iter().collect();
+    optimizations.sort_by_key(|(optimization, _)| *optimization as usize);
+
     for optimization in optimizations {
         if optimization.1.len() > 0 {
             let optimization_target = optimization.0;
-            let matches = optimization.1;
+            let mut matches = optimization.1;
+            matches.sort();
 
             let report_section = get_optimization_report_section(optimization_target);
 
